@@ -22,7 +22,8 @@ CLAIMED = {
  "C19": ("Theorems for every keyspace, instant and command: the backend's translation of each cache command into server commands (SET PX NX/XX, MGET, UNLINK, SCAN MATCH, PEXPIRE, "
          "TTL, INCRBY, the three Lua scripts transcribed, SADD+PEXPIRE pipeline, BITFIELD) and of the replies back has exactly the effect and result of a cache-level reference TTL "
          "map with Redis's policies, hence for every history; with the server unreachable and suppression on the keyspace is untouched, only ping raises and every other command "
-         "gives the default / failure answer; with suppression off exactly CacheBackendInteractionError; over any history with any down/up switching no other exception. The real "
+         "gives the default / failure answer; with suppression off exactly CacheBackendInteractionError; over any history with any down/up switching no other exception; "
+         "is_locked(wait, step) as a fuelled polling loop answers, for every wait and step > 0, what the reference's exists says at the instant it returns. The real "
          "cashews Redis backend runs on an in-process stand-in for redis-py + server (Lua subset interpreted, so script edits execute); results and the whole keyspace after every "
          "command are compared with the model and judged against the reference; every decorator is run over a dead server.",
          "the stand-in's fidelity to a real Redis server is trusted (none available offline); the server goes down between commands, not inside one; decorators over a dead server are "
